@@ -5,6 +5,7 @@ bounds.  Helper lemmas live in `Lemmas/C16.lean` (bookkeeping over ℚ) and `Ana
 -/
 import GemseoVerif.Lemmas.C16
 import GemseoVerif.Analysis.C16
+import GemseoVerif.Analysis.C16Complex
 import Mathlib.Data.Rat.Cast.Order
 import Mathlib.Data.Real.Basic
 import Mathlib.Tactic.NormNum
@@ -522,5 +523,41 @@ theorem cd_model_second_order (f : Vec → Vec) (sp : Option Space) (x : Vec) (s
   rw [h1, h2] at this
   push_cast
   exact this
+
+/-! ### Complex step on real polynomials of every degree (Gaussian arithmetic over ℂ) -/
+
+open Polynomial Complex in
+/-- **Complex step is exact up to `h²` on every real polynomial**:
+    `Im P(x+ih)/h − P'(x) = h² · Σ_{3≤k<N} (P⁽ᵏ⁾(x)/k!) h^{k−3} Im(iᵏ)` for every `N` above the
+    degree (`P⁽ᵏ⁾/k!` = Hasse derivative; `Im(i^{2j}) = 0`, `Im(i^{2j+1}) = (−1)ʲ`). -/
+theorem cs_polynomial_exact_up_to_h2 (P : ℝ[X]) (x h : ℝ) (hh : h ≠ 0) (N : ℕ)
+    (hN : P.natDegree < N) (hN2 : 2 ≤ N) :
+    (aeval ((x : ℂ) + (h : ℂ) * I) P).im / h - P.derivative.eval x
+      = h ^ 2 * Analysis.csRemainder P x h N :=
+  Analysis.cs_exact_up_to_h2 P x h hh N hN hN2
+
+open Polynomial Complex in
+/-- Rounding error only: on polynomials of degree ≤ 2 the complex step has no truncation error,
+    whatever the step. -/
+theorem cs_exact_on_quadratics (P : ℝ[X]) (x h : ℝ) (hh : h ≠ 0) (hdeg : P.natDegree ≤ 2) :
+    (aeval ((x : ℂ) + (h : ℂ) * I) P).im / h = P.derivative.eval x :=
+  Analysis.cs_exact_deg_le_two P x h hh hdeg
+
+open Polynomial Complex in
+/-- On cubics the truncation error is exactly `−h² · P'''(x)/6` (the oracle's `δ²/6·sup|f'''|`). -/
+theorem cs_error_on_cubics (P : ℝ[X]) (x h : ℝ) (hh : h ≠ 0) (hdeg : P.natDegree ≤ 3) :
+    (aeval ((x : ℂ) + (h : ℂ) * I) P).im / h - P.derivative.eval x
+      = -(h ^ 2 * ((derivative^[3] P).eval x / 6)) :=
+  Analysis.cs_error_deg_le_three P x h hh hdeg
+
+open Polynomial Complex in
+example : (aeval (((2 : ℝ) : ℂ) + ((1 / 8 : ℝ) : ℂ) * I) (X ^ 2 + C 3 * X : ℝ[X])).im / (1 / 8)
+    = (derivative (X ^ 2 + C 3 * X : ℝ[X])).eval 2 :=
+  cs_exact_on_quadratics _ 2 (1 / 8) (by norm_num) (by
+    have : (X ^ 2 + C 3 * X : ℝ[X]).natDegree ≤ 2 := by
+      apply natDegree_add_le_of_degree_le
+      · simp
+      · exact (natDegree_C_mul_le _ _).trans (by simp)
+    exact this)
 
 end GV.C16
